@@ -367,3 +367,64 @@ func TacticOK(r *rand.Rand, i int) ref.Pos {
 		}
 	}
 }
+
+// BoxedKing builds a sparse position in which the side to move is not in check, its king has no
+// move, but some other piece or pawn can still move (zugzwang-like shapes: every available move
+// may well walk into capture). ok=false if no such position was found within the attempt budget.
+func BoxedKing(r *rand.Rand) (ref.Pos, bool) {
+	for try := 0; try < 3000; try++ {
+		var p ref.Pos
+		p.EP = -1
+		p.Full = 1 + r.Intn(80)
+		p.Half = r.Intn(40)
+		// own king on the edge, enemy king close
+		var k int
+		switch r.Intn(3) {
+		case 0:
+			k = []int{0, 7, 56, 63}[r.Intn(4)]
+		case 1:
+			k = ref.Sq(r.Intn(8), []int{0, 7}[r.Intn(2)])
+		default:
+			k = ref.Sq([]int{0, 7}[r.Intn(2)], r.Intn(8))
+		}
+		p.B[k] = ref.King
+		df, dr := r.Intn(5)-2, r.Intn(5)-2
+		ef, er := ref.File(k)+df, ref.Rank(k)+dr
+		if ef < 0 || ef > 7 || er < 0 || er > 7 || (abs(df) <= 1 && abs(dr) <= 1) {
+			continue
+		}
+		p.B[ref.Sq(ef, er)] = -ref.King
+		// a few men
+		for i := 0; i < 1+r.Intn(2); i++ {
+			sq := putFree(r, &p, []int8{ref.Pawn, ref.Pawn, ref.Knight, ref.Bishop, ref.Pawn}[r.Intn(5)])
+			if sq >= 0 && p.B[sq] == ref.Pawn && (ref.Rank(sq) == 0 || ref.Rank(sq) == 7) {
+				p.B[sq] = 0
+			}
+		}
+		for i := 0; i < 1+r.Intn(3); i++ {
+			sq := putFree(r, &p, -[]int8{ref.Bishop, ref.Rook, ref.Knight, ref.Pawn, ref.Pawn, ref.Queen}[r.Intn(6)])
+			if sq >= 0 && p.B[sq] == -ref.Pawn && (ref.Rank(sq) == 0 || ref.Rank(sq) == 7) {
+				p.B[sq] = 0
+			}
+		}
+		p.White = true
+		if !valid(&p) || p.InCheck(true) {
+			continue
+		}
+		ms := p.LegalMoves()
+		if len(ms) == 0 {
+			continue
+		}
+		kingMoves := 0
+		for _, m := range ms {
+			if m.Piece == ref.King {
+				kingMoves++
+			}
+		}
+		if kingMoves > 0 {
+			continue
+		}
+		return maybeFlip(r, p), true
+	}
+	return ref.Pos{}, false
+}
